@@ -598,7 +598,7 @@ class _TextStrategy:
 def _text(it, a, k):
     from pyvc.values import VObj
 
-    return VObj(it.resolve_class("spec:TextStrategy"), {"min_size": k.get("min_size", 0), "max_size": k.get("max_size"), "filters": []})
+    return VObj(it.resolve_class("spec:TextStrategy"), {"min_size": k.get("min_size", 0), "max_size": k.get("max_size"), "filters": [], "alternatives": ["text"]})
 
 
 def _chain_filter(it, obj, a, k):
@@ -638,6 +638,78 @@ R.contract(
     ensures={"true_iff_the_pattern_is_found_nowhere_in_the_value": "ghost('searched') == value and iff(result, ghost('found') is None)"},
 )
 R.nominal_methods["spec:SearchablePattern"] = {"search": lambda it, obj, a, k: (it.ghost.__setitem__("searched", a[0]) or it.ghost.__setitem__("found", OneOf(NoneT, Opq("Match")).make(it, it.path.fresh("match"))) or it.ghost["found"])}
+
+
+# ------------------------------------------------------------------------------------------------- _negative_enum: "Invalid enum value" is really outside the enumeration
+def _alt_strategy(kind):
+    return lambda it, a, k: __import__("pyvc.values", fromlist=["VObj"]).VObj(it.resolve_class("spec:AltStrategy"), {"alternatives": [kind], "filters": []})
+
+
+def _alt_or(it, obj, a, k):
+    from pyvc.values import VObj
+
+    return VObj(obj.cls, {"alternatives": obj.fields["alternatives"] + a[0].fields["alternatives"], "filters": []})
+
+
+def _alt_filter(it, obj, a, k):
+    from pyvc.values import VObj
+
+    return VObj(obj.cls, {**obj.fields, "filters": obj.fields["filters"] + [a[0]]})
+
+
+R.nominal_methods["spec:AltStrategy"] = {"__or__": _alt_or, "filter": _alt_filter}
+R.extern["hypothesis.strategies.none"] = _alt_strategy("none")
+R.extern["hypothesis.strategies.booleans"] = _alt_strategy("booleans")
+R.module_values[COV.rstrip(":") + ":NUMERIC_STRATEGY"] = None  # replaced per path below (a module-level strategy object)
+
+
+def _enum_ctx_generate_from(it, obj, a, k):
+    """ctx.generate_from(strategy): run the strategy's filter on an arbitrary candidate; the value handed out is one that PASSED it (E2)."""
+    strat = a[0]
+    it.ghost["enum_strategy"] = strat
+    cand = OneOf(Opq("Candidate"), Const("a"), Const(1), NoneT).make(it, it.path.fresh("candidate"))
+    verdicts = [it.call(f, [cand], {}) for f in strat.fields["filters"]]
+    it.ghost["candidate"] = cand
+    it.ghost["verdicts"] = verdicts
+    return cand
+
+
+R.nominal_methods["spec:EnumCtxObj"] = {"generate_from": _enum_ctx_generate_from,
+                                          "is_valid_for_location": lambda it, obj, a, k: it.ghost.__setitem__("location_ok", it.path.choose([(True, True), (False, True)], "valid-for-location")) or it.ghost["location_ok"]}
+
+
+def _enum_setup(it):
+    from pyvc.verify import locate
+    from pyvc.values import VObj
+
+    it.reg.module_values[COV.rstrip(":") + ":NUMERIC_STRATEGY"] = VObj(it.resolve_class("spec:AltStrategy"), {"alternatives": ["numbers"], "filters": []})
+    _, _, fn = locate(it, COV + "_negative_enum")
+    return fn, {}
+
+
+class _SeenSet(D):
+    def make(self, it, name, idx=()):
+        return set()
+
+
+R.contracts[COV + "_to_hashable_key"].returns = lambda it, env: ("key-of", env["value"]) if getattr(it.top_contract, "target", "").endswith("_negative_enum") else _hash_key(it, env)
+R.contract(
+    COV + "_negative_enum",
+    prop="C03",
+    setup=_enum_setup,
+    args={"ctx": Obj("spec:EnumCtxObj", current_path=Const("/")), "value": Choice(["a", "b"], [1, None], []), "seen": _SeenSet()},
+    ghost={"enum_strategy": None, "candidate": None, "verdicts": None, "location_ok": None},
+    raises=[],
+    ensures={
+        # a candidate passes the filter only if it is NOT one of the enumerated values (and can be sent in the location): so the value labelled "Invalid enum value" violates the enum
+        "the_filter_rejects_every_enumerated_value": "length(ghost('verdicts')) == 1 and implies(ghost('verdicts')[0], not any(same_v(ghost('candidate'), e) for e in value) and ghost('location_ok') is not False)",
+        "drawn_from_all_primitive_kinds": "ghost('enum_strategy').alternatives == ['none', 'booleans', 'numbers', 'text']",
+        "the_value_is_labelled_negative_and_remembered": "length(result) == 1 and result[0].value is ghost('candidate') and result[0].generation_mode.name == 'NEGATIVE' and length(seen) == 1",
+    },
+    bounded_note="three enumerations, four candidate kinds",
+    replayable=False,
+)
+R.spec_funcs["same_v"] = lambda it, a, b: (a is b) if (a is None or b is None or type(a).__name__ == "Opaque" or type(b).__name__ == "Opaque") else (type(a) is type(b) and a == b)
 
 LEVEL_TEXT = ("Deductive: the numeric / length / item-count boundary generators are verified against 'conforms to the declared schema' for ALL integer bounds "
               "(multipleOf clauses for a finite set of divisors, labelled bounded); the case-level label rule is a postcondition on every case yielded by _iter_coverage_cases.")
